@@ -247,9 +247,10 @@ def finalize(ctx, col):
             print(f"KNOWN-FINDING: property={ctx.pid} sig={sig} {text} (listed; not exercised by this run)")
     code = 0
     vio_paths = []
-    for sig, b in new:
+    shrink_deadline = time.time() + (90 if ctx.tier == "quick" else 600)
+    for i, (sig, b) in enumerate(new):
         case = b["case"]
-        if ctx.shrinker is not None:
+        if ctx.shrinker is not None and i < 8 and time.time() < shrink_deadline:
             try:
                 small = ctx.shrinker(sig, case)
                 if small is not None:
